@@ -44,6 +44,17 @@ def reencCmd (kind : String) (payload : Bytes) : String :=
   | "v2.track" => renderRes hexBytes (Impl.V2.decodeTrack payload >>= fun p => Impl.V2.encodeTrack p.1 p.2)
   | _ => "bad-op kind"
 
+/-- `reencz`: decode-then-encode of a stored blob, framing included (`fromBlob = decode ∘ unz`): the payload
+of the re-encoded blob. -/
+def reenczCmd (kind : String) (blob : Bytes) : String :=
+  match kind with
+  | "v2.beat" => renderRes hexBytes (Impl.Blob.fromBlobBeat2 blob >>= fun p => Impl.V2.encodeBeat p.1 p.2)
+  | "v2.cues" => renderRes hexBytes (Impl.Blob.fromBlobCues2 blob >>= fun p => Impl.V2.encodeCues p.1 p.2)
+  | "v2.loops" => renderRes hexBytes (Impl.Blob.fromBlobLoops2 blob >>= fun p => Impl.V2.encodeLoops p.1 p.2)
+  | "v2.ovw" => renderRes hexBytes (Impl.Blob.fromBlobOvw2 blob >>= fun p => Impl.V2.encodeOvw p.1 p.2)
+  | "v2.track" => renderRes hexBytes (Impl.Blob.fromBlobTrack2 blob >>= fun p => Impl.V2.encodeTrack p.1 p.2)
+  | _ => "bad-op kind"
+
 /-- Spec encoders / decoders of all eleven kinds (`senc`, `sdec`). -/
 def sencCmd (kind : String) (toks : List String) : String :=
   let r (o : Option Bytes) : String := match o with | some b => "ok " ++ hexBytes b | none => "reject"
@@ -129,6 +140,7 @@ def codecsTable (cmd : String) (args : List String) : Option String :=
   | "unz", [h] => some (withHex h fun b => renderRes hexBytes (Impl.Zlib.unz b))
   | "decz", [k, h] => some (withHex h (deczCmd k))
   | "reenc", [k, h] => some (withHex h (reencCmd k))
+  | "reencz", [k, h] => some (withHex h (reenczCmd k))
   | "senc", k :: v => some (sencCmd k v)
   | "sdec", [k, h] => some (withHex h (sdecCmd k))
   | "inf", [h] => some (withHex h fun b =>
